@@ -48,6 +48,7 @@ type DNode struct {
 	Kids   []*DNode
 	Stmt   *Stmt
 	Config bool
+	LrHops int // leafref: how many leafrefs lie between this leaf and a leaf of another type (0: not a leafref)
 }
 
 // Set is a generated module set plus what was done to it.
@@ -69,6 +70,7 @@ type gen struct {
 	// 4 groupings) is drawn scaleBy times as often: hundreds of definitions of one kind, so
 	// that code which behaves differently above a size threshold is reached at all
 	scaleKind, scaleBy int
+	usedSpecial        map[string]bool
 }
 
 func (g *gen) times(kind, n int) int {
@@ -82,6 +84,27 @@ func (g *gen) times(kind, n int) int {
 }
 
 func (g *gen) name(p string) string { g.n++; return fmt.Sprintf("%s%d", p, g.n) }
+
+// defName names a definition (typedef, grouping, identity, feature): usually a fresh counter name, now and
+// then a name that means something else somewhere: a built-in type, a statement keyword, a reserved
+// prefix, a name with every punctuation an identifier may have. Each special name is used at most once
+// per set (two definitions of one name would just be a duplicate).
+func (g *gen) defName(p string) string {
+	if g.t.Rare(14) {
+		pool := []string{"string", "uint8", "int64", "union", "enumeration", "boolean", "empty", "leafref", "identityref", "bits", "binary", "decimal64", "instance-identifier",
+			"leaf", "container", "type", "default", "module", "grouping", "config", "xml-thing", "XMLname", "a.b-c_d", "_u", "x-1.2"}
+		n := pool[g.t.Draw(len(pool))]
+		if !g.usedSpecial[n] {
+			if g.usedSpecial == nil {
+				g.usedSpecial = map[string]bool{}
+			}
+			g.usedSpecial[n] = true
+			g.set.Probes["definition_with_special_name"] = true
+			return n
+		}
+	}
+	return g.name(p)
+}
 
 // GenerateSet draws a module set. With illFormed, one or two ill-formedness
 // operators may be applied (recorded in Set.Ops).
@@ -330,7 +353,7 @@ func (g *gen) ref(m, def *Module, name string) string {
 func (g *gen) features(m *Module) {
 	t := g.t
 	for n := g.times(1, t.Draw(4)); n > 0; n-- {
-		f := S("feature", g.name("f"))
+		f := S("feature", g.defName("f"))
 		// if-feature chain to visible earlier features
 		var cands []struct {
 			m *Module
@@ -372,7 +395,7 @@ func (g *gen) features(m *Module) {
 func (g *gen) identities(m *Module) {
 	t := g.t
 	for n := g.times(2, t.Draw(4)); n > 0; n-- {
-		id := S("identity", g.name("id"))
+		id := S("identity", g.defName("id"))
 		var cands []struct {
 			m *Module
 			n string
@@ -541,7 +564,7 @@ func (g *gen) typeStmt(m *Module, depth int) (*Stmt, string) {
 func (g *gen) typedefs(m *Module) {
 	t := g.t
 	for n := g.times(3, t.Draw(4)); n > 0; n-- {
-		td := &TypeDef{Name: g.name("t"), Mod: m}
+		td := &TypeDef{Name: g.defName("t"), Mod: m}
 		var ty *Stmt
 		def := ""
 		// chain onto an earlier typedef (local or imported) or start from a builtin
@@ -716,8 +739,16 @@ func (g *gen) dataNode(m *Module, parent *DNode, depth int) *DNode {
 					sib = append(sib, k)
 				}
 			}
-			if len(sib) > 0 && t.Rare(6) && n.Stmt.Find("default") == nil {
+			if len(sib) > 0 && t.Rare(4) && n.Stmt.Find("default") == nil {
 				k := sib[t.Draw(len(sib))]
+				if t.Coin() {
+					// chains of leafrefs: prefer a sibling that is a leafref itself
+					for _, x := range sib {
+						if x.LrHops > k.LrHops {
+							k = x
+						}
+					}
+				}
 				path := "../" + k.Name
 				switch t.Draw(10) {
 				case 1:
@@ -732,7 +763,11 @@ func (g *gen) dataNode(m *Module, parent *DNode, depth int) *DNode {
 					lr.Add(S("require-instance", []string{"true", "false"}[t.Draw(2)]))
 				}
 				n.Stmt.Kids[0] = lr
+				n.LrHops = k.LrHops + 1
 				g.set.Probes["leafref"] = true
+				if n.LrHops >= 3 {
+					g.set.Probes["leafref_chain_of_3_or_more"] = true
+				}
 			}
 			parent.Kids = append(parent.Kids, n)
 		}
@@ -935,7 +970,7 @@ func (g *gen) fill(m *Module, n *DNode, depth int) {
 func (g *gen) groupings(m *Module) {
 	t := g.t
 	for n := g.times(4, t.Draw(3)); n > 0; n-- {
-		gr := &Grouping{Name: g.name("g"), Mod: m}
+		gr := &Grouping{Name: g.defName("g"), Mod: m}
 		st := S("grouping", gr.Name)
 		holder := &DNode{Kind: "grouping", Name: gr.Name, Mod: m, Stmt: st}
 		// register only after filling so that a grouping cannot use itself
@@ -966,6 +1001,30 @@ func (g *gen) data(m *Module) {
 		}
 		m.Root.Add(c.Stmt)
 		m.Top = append(m.Top, c)
+	}
+	if g.t.Rare(8) && !m.Sub {
+		// a container with a chain of leafrefs: l0 <- l1 <- ... <- ln (n up to 6), declared in a drawn order,
+		// one of them possibly with a default (which has to be checked against the type at the end of the chain)
+		t := g.t
+		c := &DNode{Kind: "container", Name: g.name("lrc"), Mod: m, Config: true}
+		c.Stmt = S("container", c.Name)
+		n := 2 + t.Draw(5)
+		names := make([]string, n+1)
+		for i := range names {
+			names[i] = g.name("lr")
+		}
+		stmts := []*Stmt{S("leaf", names[0], S("type", []string{"string", "uint8", "boolean"}[t.Draw(3)]))}
+		for i := 1; i <= n; i++ {
+			st := S("leaf", names[i], S("type", "leafref", S("path", "../"+names[i-1])))
+			stmts = append(stmts, st)
+		}
+		for _, i := range t.Perm(len(stmts)) {
+			c.Stmt.Add(stmts[i])
+			c.Kids = append(c.Kids, &DNode{Kind: "leaf", Name: stmts[i].Arg, Mod: m, Parent: c, Config: true, Stmt: stmts[i]})
+		}
+		m.Root.Add(c.Stmt)
+		m.Top = append(m.Top, c)
+		g.set.Probes["leafref_chain_of_3_or_more"] = true
 	}
 }
 
